@@ -27,9 +27,10 @@ import (
 const gateTimeout = 4 * time.Second
 
 type delivery struct {
-	pub  *centrifuge.Publication
-	sp   centrifuge.StreamPosition
-	prev *centrifuge.Publication
+	pub   *centrifuge.Publication
+	sp    centrifuge.StreamPosition
+	delta bool // the publication was published with the delta option
+	prev  *centrifuge.Publication
 }
 
 type dRunner struct {
@@ -70,6 +71,10 @@ type dRunner struct {
 	lastReplyPubs                     int
 	livePushesSinceReply              int
 	filteredSinceLastFrame            bool
+	prevNonDelta                      bool // the publication the client holds was published without the delta option
+	winFiltered                       bool         // a publication the filter excludes was delivered inside the subscribe window of this session
+	nonDeltaSinceFrame                bool         // a publication published WITHOUT the delta option was delivered since the last but one frame
+	udOf                              map[int]bool // publication id -> published with the delta option
 }
 
 type dWorker struct {
@@ -121,13 +126,13 @@ func newDWorker(histSize int) (*dWorker, error) {
 			r.g3.Arrive(gateTimeout)
 		}
 	}
-	gb.Intercept = func(ch string, pub *centrifuge.Publication, sp centrifuge.StreamPosition, _ bool, prev *centrifuge.Publication) bool {
+	gb.Intercept = func(ch string, pub *centrifuge.Publication, sp centrifuge.StreamPosition, delta bool, prev *centrifuge.Publication) bool {
 		r := w.runner(ch)
 		if r == nil {
 			return true
 		}
 		r.mu.Lock()
-		r.deliveries[r.curID] = delivery{pub, sp, prev}
+		r.deliveries[r.curID] = delivery{pub, sp, delta, prev}
 		r.mu.Unlock()
 		return false
 	}
@@ -277,8 +282,13 @@ func (r *dRunner) liveSig() string {
 		if r.lastReplyPubs == 0 {
 			return base + ":empty-recovery"
 		}
+		if r.winFiltered {
+			return base + ":after-filtered-in-window"
+		}
 	}
 	switch {
+	case r.prevNonDelta:
+		return base + ":after-nondelta-publish"
 	case r.filteredSinceLastFrame:
 		return base + ":after-filtered"
 	case r.sessDups > 0:
@@ -304,6 +314,7 @@ func (r *dRunner) take(p *protocol.Publication, where, sig string) (pframe, *dve
 		r.off = p.Offset
 	}
 	r.filteredSinceLastFrame = false
+	defer func() { r.prevNonDelta = pf.ID != 0 && !r.udOf[pf.ID] }()
 	sig = sig + ":" + r.protoName()
 	if a.Err != "" && a.Delta && r.proto == centrifuge.ProtocolTypeJSON && hadBefore {
 		// was the delta mangled in transit? (U+FFFD in the wire string that the right patch does not contain)
@@ -376,7 +387,7 @@ func sameDFrames(real, model []dframe, r *dRunner) (bool, string) {
 func (w *dWorker) run(bi int, beh []map[string]any, proto centrifuge.ProtocolType, compare bool, res *vh.Result) {
 	cfg := vh.Map(beh[0]["cfg"])
 	r := &dRunner{w: w, proto: proto, cfg: cfg, kind: vh.Str(cfg["kind"]), filt: vh.Bool(cfg["filt"]), med: vh.Bool(cfg["med"]),
-		deliveries: map[int]delivery{}, offToID: map[int]int{}, tagOf: map[int]string{}}
+		deliveries: map[int]delivery{}, offToID: map[int]int{}, tagOf: map[int]string{}, udOf: map[int]bool{}}
 	prefix := "dn"
 	if r.med {
 		prefix = "dm"
@@ -455,7 +466,11 @@ func (w *dWorker) run(bi int, beh []map[string]any, proto centrifuge.ProtocolTyp
 			r.mu.Lock()
 			r.curID = id
 			r.mu.Unlock()
-			opts := []centrifuge.PublishOption{centrifuge.WithTags(map[string]string{"t": tag}), centrifuge.WithDelta(true)}
+			ud := true
+			if v, ok := step["ud"]; ok {
+				ud = vh.Bool(v)
+			}
+			opts := []centrifuge.PublishOption{centrifuge.WithTags(map[string]string{"t": tag}), centrifuge.WithDelta(ud)}
 			if r.kind != "nohist" {
 				opts = append(opts, centrifuge.WithHistory(w.hist, time.Minute))
 			}
@@ -465,6 +480,7 @@ func (w *dWorker) run(bi int, beh []map[string]any, proto centrifuge.ProtocolTyp
 				break
 			}
 			r.tagOf[id] = tag
+			r.udOf[id] = ud
 			if r.kind != "nohist" {
 				r.offToID[int(pr.Offset)] = id
 			}
@@ -504,9 +520,15 @@ func (w *dWorker) run(bi int, beh []map[string]any, proto centrifuge.ProtocolTyp
 			}
 			if r.filt && r.tagOf[id] == "drop" {
 				r.filteredSinceLastFrame = true
+				if pcNow := vh.Str(beh[si-1]["pc"]); pcNow == "g1" || pcNow == "g2" || pcNow == "g3" {
+					r.winFiltered = true
+				}
+			}
+			if !r.udOf[id] {
+				r.nonDeltaSinceFrame = true
 			}
 			pub := *d.pub
-			if err := w.gb.Deliver(r.ch, &pub, d.sp, true, d.prev); err != nil {
+			if err := w.gb.Deliver(r.ch, &pub, d.sp, d.delta, d.prev); err != nil {
 				drift("deliver: " + err.Error())
 			}
 		case "SubStart":
@@ -538,6 +560,7 @@ func (w *dWorker) run(bi int, beh []map[string]any, proto centrifuge.ProtocolTyp
 				drift("subscriber did not reach Broker.Subscribe")
 			}
 			r.sessDrops, r.sessDups, r.sessReorders = 0, 0, 0
+			r.winFiltered = false
 		case "SubToHistory":
 			r.g1.Release()
 			if !r.g2.WaitArrived(gateTimeout) {
